@@ -222,6 +222,29 @@ fn case<S: Scheme>(ctx: &mut Ctx, rng: &mut ChaCha20Rng) {
             ctx.count("schedule-mismatch", 1);
         }
     }
+    // (iii-c) all claims true, blinding evaluation moved from one proof onto another (their sum is unchanged):
+    // each per-point check then fails, so the batch must fail too.
+    for a in 0..proofs.len() {
+        for b in 0..proofs.len() {
+            if a == b {
+                continue;
+            }
+            let mut pl = proofs.clone();
+            let (mut pa, mut pb) = (pl[a].clone(), pl[b].clone());
+            if !S::move_blinding(&mut pa, &mut pb) {
+                continue;
+            }
+            pl[a] = pa;
+            pl[b] = pb;
+            let (refd, routs) = per_point::<S>(&tx, &q.groups, &q.evals, &pl, &mut tx.sponge());
+            let bp: BatchProofOf<S> = pl.into();
+            let o = batch_check::<S>(&tx.w.vk, &vcomms, &q.qs, &q.evals, &bp, &mut tx.sponge(), rng.next_u64());
+            let mut dj = txj.clone();
+            dj["moved"] = json!([a, b]);
+            ctx.check(o.is_accept() == refd, "batch-vs-single-mismatch", "batch_check", dj.clone(), || json!({"batch": o.json(), "per_point_all_accept": refd, "per_point": routs}));
+            ctx.check(!o.is_accept(), "blinding-moved-between-proofs", "batch_check", dj, || json!({"batch": o.json()}));
+        }
+    }
     // (iv) proof-list shape
     let n = proofs.len();
     let shapes: Vec<(&str, Vec<ProofOf<S>>)> = {
